@@ -74,13 +74,16 @@ def gen_case(rng):
         names.append("uuid")
     n_threads = rng.choice([2, 2, 3, 4])
     threads = []
+    focus = rng.choice(names)  # most traffic on one name: registrations racing validations
+    p_register = rng.choice([0.35, 0.5, 0.65])
     for _ in range(n_threads):
         ops = []
         for _ in range(rng.randint(1, 4)):
-            if rng.random() < 0.65:
-                ops.append({"op": "register", "name": rng.choice(names), "pred": gen_pred(rng)})
+            name = focus if rng.random() < 0.7 else rng.choice(names)
+            if rng.random() < p_register:
+                ops.append({"op": "register", "name": name, "pred": gen_pred(rng)})
             else:
-                ops.append({"op": "validate", "name": rng.choice(names), "value": rng.choice(PROBES)})
+                ops.append({"op": "validate", "name": name, "value": rng.choice(PROBES)})
         threads.append(ops)
     case = {
         "prop": PROP,
